@@ -36,13 +36,14 @@ var c12PatternSets = [][]string{
 	{"https://*.example.com", "http://example.com"}, // host patterns never contain a scheme: these match no host
 	{"[a-z.example.com"},                            // malformed glob: can authorise nothing
 	{"evil.com", "[bad", "other*"},                  // a malformed pattern after a well formed one
+	{"api.*.example.com", "a*a"},                    // a wildcard in the middle stands for at least the characters between its neighbours: it does not let them overlap
 }
 
 func init() {
 	fw.Register(&fw.Prop{
 		ID:    "C12",
 		Level: "exploration",
-		Rule: "cases = the FULL cross product (Host header (6) x pattern set (11, two of them with a malformed glob, one with scheme-prefixed patterns) x InsecureSkipVerify (2)) x an origin grammar built from parts: scheme (8 incl. none and 'null') x userinfo tricks (4) x host (same, mixed case, prefix/suffix/sub-domain look-alikes, trailing dot, foreign, IP, IPv6, empty) x port (none, default, other) x path / query / fragment containing the host; " +
+		Rule: "cases = the FULL cross product (Host header (6) x pattern set (12, two of them with a malformed glob, one with scheme-prefixed patterns) x InsecureSkipVerify (2)) x an origin grammar built from parts: scheme (8 incl. none and 'null') x userinfo tricks (4) x host (same, mixed case, prefix/suffix/sub-domain look-alikes, trailing dot, foreign, IP, IPv6, empty) x port (none, default, other) x path / query / fragment containing the host; " +
 			"the authority an origin names is known by construction and patterns are matched by the harness's own glob; verdicts are given where 'host' is unambiguous (see assumptions). distinct key = (verdict, host relation, port relation, pattern relation, where the look-alike sits)",
 		Exhaustive:  func(string) bool { return true },
 		Gen:         c12Gen,
@@ -129,6 +130,7 @@ func c12Run(r *fw.R, d c12Desc) {
 		{reqHost, "same"}, {strings.ToUpper(reqHost), "same-upper"}, {"evil" + base, "prefix-lookalike"}, {base + ".evil.com", "suffix-lookalike"},
 		{"sub." + base, "subdomain"}, {base + ".", "trailing-dot"}, {"evil.com", "foreign"}, {"10.0.0.1", "foreign-ip"}, {"[::2]", "foreign-ipv6"}, {"", "empty"},
 		{strings.Replace(base, ".", "-", 1), "dot-replaced"},
+		{"api.example.com", "middle-wildcard-collapsed"}, {"api.v2.example.com", "middle-wildcard-filled"}, {"a", "one-letter"},
 	}
 	// long foreign hosts whose first 32 / 64 / 128 bytes are a name the usual patterns authorise
 	for _, n := range []int{32, 64, 128} {
